@@ -281,6 +281,11 @@ def compare(it, op, a, b, node):
             raise _CE("ordering of objects")
     if op in ("Is", "IsNot"):
         pos = op == "Is"
+        if a is None or b is None:
+            other = b if a is None else a
+            # a match result is None or a (truthy) Match object: `m is None` is exactly `not m`
+            if isinstance(other, Sym) and other.kind in ("rematch", "rematch_abs"):
+                return Sym("not", other) if pos else other
         if isinstance(a, (Sym, SStr)) or isinstance(b, (Sym, SStr)):
             return Sym("cmp", op, a, b)
         if a is None or b is None:
